@@ -21,7 +21,7 @@ import numpy as np
 
 from harness import stabutil as su
 from harness import tabutil as tu
-from harness.common import Driver, Result, err_class
+from harness.common import Driver, Result, err_class, impl_guard
 
 LEVEL = "proof"
 TRUSTED_BASE = [
@@ -121,10 +121,10 @@ def check_pair(res, a, b, tag, pending, same=None):
     spec = overlap_spec(a, b)
     fails = []
     try:
-        f_ab = impl_fidelity(a, b)
-        f_ba = impl_fidelity(b, a)
+        f_ab = float(impl_fidelity(a, b))  # a result that is not a real number (None, an array, a complex value) is reported here, not a crash below
+        f_ba = float(impl_fidelity(b, a))
     except Exception as e:  # noqa: BLE001
-        res.violation(f"fidelity:raises:{err_class(e)}", "fidelity raised on valid stabilizer states", input=inp)
+        res.violation(f"fidelity:raises:{err_class(e)}", "fidelity raised (or did not return a real number) on valid stabilizer states", input=inp)
         return
     want = fid_value(spec)
     if abs(f_ab - want) > 1e-12:
@@ -165,14 +165,19 @@ def check_pair(res, a, b, tag, pending, same=None):
         ca = None
     if ca is not None and su.stab_canon_of(ca) != tu.stab_canon(a):
         fails.append(("canonical_form:changes-state", "canonical_form changed the signed group"))
+    try:
+        sa, sb = a.to_stabilizer(), b.to_stabilizer()
+    except Exception as e:  # noqa: BLE001 — the model lines below need the stabilizer halves: to_stabilizer() is total on a valid tableau
+        res.violation(f"to_stabilizer:raises:{err_class(e)}", "CliffordTableau.to_stabilizer raised on a valid tableau", input=inp)
+        return
     lines = [f"stab.ip {tu.tab_args(a, 'a')} {tu.tab_args(b, 'b')}", f"stab.ip {tu.tab_args(b, 'a')} {tu.tab_args(a, 'b')}",
-             f"stab.canon {su.stab_args(a.to_stabilizer())}", f"stab.inv {su.stab_args(a.to_stabilizer())}",
-             f"stab.inv {su.stab_args(b.to_stabilizer())}",
+             f"stab.canon {su.stab_args(sa)}", f"stab.inv {su.stab_args(sa)}",
+             f"stab.inv {su.stab_args(sb)}",
              # the verified shape checker (isCanon_sound) on the canonical form the REAL code returned
-             f"stab.iscanon {su.stab_args(ca if ca is not None else a.to_stabilizer())}"]
+             f"stab.iscanon {su.stab_args(ca if ca is not None else sa)}"]
     if n <= LEAN_SPEC_MAX_N:
         # the Lean specification predicates themselves (Orth, common subgroup), through their proved-exact executable versions
-        lines.append(f"stab.overlap {su.stab_args(a.to_stabilizer(), 'a')} {su.stab_args(b.to_stabilizer(), 'b')}")
+        lines.append(f"stab.overlap {su.stab_args(sa, 'a')} {su.stab_args(sb, 'b')}")
     pending.append((lines, inp, f_ab, f_ba, ca, spec, fails, same_state))
 
 
@@ -237,6 +242,19 @@ def flip_sign(t, rng):
     return u
 
 
+N_STATES = {1: 6, 2: 60, 3: 1080}  # number of n-qubit stabilizer states
+
+
+def check_pool(res, n, states):
+    """the pools behind "all ordered pairs" are enumerated with graphiq's own gate functions (BFS from |0..0>, de-duplicated by an independent
+    canonical form): a changed gate function could silently shrink them while the evidence still says exhaustive"""
+    bad = [t for t in states if not tu.is_valid(t)]
+    if len(states) != N_STATES[n] or bad:
+        res.exact_break(f"coverage collapsed: all_states({n})", input={"n": n},
+                        impl=f"the enumeration through hadamard_gate / phase_gate / cnot_gate reached {len(states)} states ({len(bad)} not symplectic)",
+                        model=f"{N_STATES[n]} stabilizer states")
+
+
 # regression input: the witness of D42 (repaired in graphiq 74abae4); fidelity with itself was 0.5 before the repair
 D42_WITNESS = "n=5 x=1011001100000010000000000 z=0010000011001101001001110 r=11010"
 
@@ -255,79 +273,93 @@ def run(ctx, budget=1.0):
     from harness.c11 import LineCov
 
     # line coverage of the real functions (sys.settrace, no hook in /repo): which branches the generated pairs reach
-    COV = LineCov(sfm_cov.fidelity, sfm_cov.inner_product, sfs_cov.canonical_form, sfs_cov.inverse_circuit)
-    COV.res = res
+    try:
+        COV = LineCov(sfm_cov.fidelity, sfm_cov.inner_product, sfs_cov.canonical_form, sfs_cov.inverse_circuit)
+        COV.res = res
+    except Exception as e:  # noqa: BLE001 — coverage is an observation (inspect.getsourcelines / __code__ fail on a decorated or compiled function)
+        COV = None
+        res.notes.append(f"line coverage of the real functions not available ({type(e).__name__}: {e})"[:200])
     # corpus: the witness of the repaired D42 against itself (re-gauged); must pass like any other pair
     from graphiq.backends.stabilizer.functions.rep_conversion import clifford_from_stabilizer  # noqa: F401
     from harness.c11 import stab_of_args
 
-    w = stab_of_args(D42_WITNESS)
-    wt = _clifford_with_stab(w, rng)
-    check_pair(res, wt, su.regauge_clifford(wt, rng), "corpus:D42", pending)
-    flush(res, drv, pending)
+    # every stream runs under common.impl_guard: the generators (su.all_states, regauge_clifford, random_state, the gate functions, the
+    # tableau constructors) call graphiq outside the `try` blocks of check_pair; an exception there is reported (exit 1), not exit 2
+    with impl_guard(res, "corpus", promise=True):
+        w = stab_of_args(D42_WITNESS)
+        wt = _clifford_with_stab(w, rng)
+        check_pair(res, wt, su.regauge_clifford(wt, rng), "corpus:D42", pending)
+        flush(res, drv, pending)
     # exhaustive n<=2: all ordered pairs (36 + 3600); n=3 sampled (quick) / all 1080^2 is too slow in Python -> 40k pairs (thorough)
-    for n in (1, 2):
-        states = su.all_states(n)
-        for a in states:
-            for b in states:
-                check_pair(res, su.regauge_clifford(a, rng), su.regauge_clifford(b, rng), f"all-pairs-n{n}", pending)
-            flush(res, drv, pending)
-    s3 = su.all_states(3)
-    for _ in range(int((400 if ctx.quick else 40000) * budget)):
-        a = rng.choice(s3)
-        mode = rng.random()
-        b = a if mode < 0.15 else (flip_sign(a, rng) if mode < 0.3 else rng.choice(s3))
-        check_pair(res, su.regauge_clifford(a, rng), su.regauge_clifford(b, rng), "n3", pending)
-        if len(pending) >= 100:
-            flush(res, drv, pending)
-    flush(res, drv, pending)
-    for _ in range(int((150 if ctx.quick else 3000) * budget)):
-        n = rng.randrange(4, 9 if ctx.quick else 15)
-        a = su.random_state(rng, n)
-        mode = rng.random()
-        if mode < 0.2:
-            b = su.regauge_clifford(a, rng)
-        elif mode < 0.35:
-            b = su.regauge_clifford(flip_sign(a, rng), rng)
-        elif mode < 0.7:
-            # partially overlapping: apply a few gates to a
-            from graphiq.backends.stabilizer.functions import transformation as tr
+    s3 = []
+    with impl_guard(res, "all-pairs", promise=True):
+        for n in (1, 2):
+            states = su.all_states(n)
+            check_pool(res, n, states)
+            for a in states:
+                for b in states:
+                    check_pair(res, su.regauge_clifford(a, rng), su.regauge_clifford(b, rng), f"all-pairs-n{n}", pending)
+                flush(res, drv, pending)
+        s3 = su.all_states(3)
+        check_pool(res, 3, s3)
+    with impl_guard(res, "n3-pairs", promise=True):
+        for _ in range(int((400 if ctx.quick else 40000) * budget) if s3 else 0):
+            a = rng.choice(s3)
+            mode = rng.random()
+            b = a if mode < 0.15 else (flip_sign(a, rng) if mode < 0.3 else rng.choice(s3))
+            check_pair(res, su.regauge_clifford(a, rng), su.regauge_clifford(b, rng), "n3", pending)
+            if len(pending) >= 100:
+                flush(res, drv, pending)
+        flush(res, drv, pending)
+    with impl_guard(res, "random-pairs", promise=True):
+        for _ in range(int((150 if ctx.quick else 3000) * budget)):
+            n = rng.randrange(4, 9 if ctx.quick else 15)
+            a = su.random_state(rng, n)
+            mode = rng.random()
+            if mode < 0.2:
+                b = su.regauge_clifford(a, rng)
+            elif mode < 0.35:
+                b = su.regauge_clifford(flip_sign(a, rng), rng)
+            elif mode < 0.7:
+                # partially overlapping: apply a few gates to a
+                from graphiq.backends.stabilizer.functions import transformation as tr
 
-            b = a.copy()
-            for _ in range(rng.randrange(1, 4)):
-                q = rng.randrange(n)
-                b = tr.hadamard_gate(b, q) if rng.random() < 0.5 else tr.phase_gate(b, q)
-            b = su.regauge_clifford(b, rng)
-        else:
-            b = su.random_state(rng, n)
-        check_pair(res, a, b, "random", pending)
-        if len(pending) >= 60:
-            flush(res, drv, pending)
-    flush(res, drv, pending)
-    # low X rank first arguments: the z_list branch of inverse_circuit's first block (the code repaired in 74abae4; D42 made
-    # fidelity(a, a) = 0.5 exactly here) runs on most columns; generic random states almost never reach it
-    from harness.c11 import low_x_rank_state
+                b = a.copy()
+                for _ in range(rng.randrange(1, 4)):
+                    q = rng.randrange(n)
+                    b = tr.hadamard_gate(b, q) if rng.random() < 0.5 else tr.phase_gate(b, q)
+                b = su.regauge_clifford(b, rng)
+            else:
+                b = su.random_state(rng, n)
+            check_pair(res, a, b, "random", pending)
+            if len(pending) >= 60:
+                flush(res, drv, pending)
+        flush(res, drv, pending)
+    with impl_guard(res, "low-x-rank-pairs", promise=True):
+        # low X rank first arguments: the z_list branch of inverse_circuit's first block (the code repaired in 74abae4; D42 made
+        # fidelity(a, a) = 0.5 exactly here) runs on most columns; generic random states almost never reach it
+        from harness.c11 import low_x_rank_state
 
-    for _ in range(int((80 if ctx.quick else 2000) * budget)):
-        n = rng.randrange(3, 9 if ctx.quick else 13)
-        a = low_x_rank_state(rng, n)
-        mode = rng.random()
-        if mode < 0.3:
-            b = su.regauge_clifford(a, rng)
-        elif mode < 0.5:
-            b = su.regauge_clifford(flip_sign(a, rng), rng)
-        elif mode < 0.8:
-            b = low_x_rank_state(rng, n)
-        else:
-            b = su.random_state(rng, n)
-        check_pair(res, a, b, "low-x-rank", pending)
-        if len(pending) >= 60:
-            flush(res, drv, pending)
-    flush(res, drv, pending)
-    res.exhaustive = True
+        for _ in range(int((80 if ctx.quick else 2000) * budget)):
+            n = rng.randrange(3, 9 if ctx.quick else 13)
+            a = low_x_rank_state(rng, n)
+            mode = rng.random()
+            if mode < 0.3:
+                b = su.regauge_clifford(a, rng)
+            elif mode < 0.5:
+                b = su.regauge_clifford(flip_sign(a, rng), rng)
+            elif mode < 0.8:
+                b = low_x_rank_state(rng, n)
+            else:
+                b = su.random_state(rng, n)
+            check_pair(res, a, b, "low-x-rank", pending)
+            if len(pending) >= 60:
+                flush(res, drv, pending)
+        flush(res, drv, pending)
+    res.exhaustive = not res.extra.get("streams_aborted")
     res.notes.append("exhaustive over all ordered pairs of stabilizer states for n<=2; sampled for n=3 and above")
     res.extra["driver_lines"] = drv.n_lines
-    unreached = COV.unreached()
+    unreached = COV.unreached() if COV is not None else ["(line coverage not available)"]
     res.extra["unreached_lines"] = unreached
     res.notes.append("line coverage of the real fidelity/inner_product/canonical_form/inverse_circuit (sys.settrace, n<=8): per-line hit counts in "
                      "`branches`; " + ("every line was reached" if not unreached else "lines no generated pair reached: " + " | ".join(unreached)))
